@@ -97,6 +97,10 @@ UFUNCS = {
     np.invert: (_u1(lambda a: ~a), 1, None),
     np.isfinite: (_u1(lambda a: a.isfinite()), 1, None),
     np.isnan: (_u1(lambda a: SV("bool", z3.BoolVal(False))), 1, None),
+    # isinf / signbit: np.isposinf and np.isneginf are composed of these by numpy's own implementation
+    # (the model has no NaN and no -0.0: NaN-class definedness is a separate proof obligation)
+    np.isinf: (_u1(lambda a: ~SV.lift(a).isfinite()), 1, None),
+    np.signbit: (_u1(lambda a: SV.lift(a) < 0), 1, None),
     np.conjugate: (_u1(lambda a: a), 1, None),
 }
 _PYF = {}
